@@ -194,15 +194,19 @@ def build_units_probes(b):
 # per-property multipliers of the case counts registered in props/*.cpp, calibrated so that a quick check executes for roughly 15-30 s
 # on 8 shards and a thorough one for roughly 5-12 min on 16 shards (bounded by case count, never by a clock)
 TIER_SCALE = {
-    'C01': (6, 6), 'C02': (10, 12), 'C03': (20, 20), 'C04': (3, 3), 'C05': (1.5, 2), 'C06': (5, 5), 'C07': (15, 15), 'C08': (10, 10),
-    'C09': (2.5, 1), 'C10': (2, 3), 'C11': (8, 8), 'C12': (1.5, 2), 'C13': (1, 1), 'C14': (1, 1), 'C15': (0.7, 1), 'C16': (5, 8),
-    'C17': (8, 10), 'C18': (1, 1), 'C19': (8, 8), 'C20': (20, 20),
+    'C01': (12, 6), 'C02': (15, 12), 'C03': (20, 20), 'C04': (3, 3), 'C05': (1.5, 2), 'C06': (5, 5), 'C07': (15, 15), 'C08': (20, 10),
+    'C09': (4, 1), 'C10': (2, 3), 'C11': (12, 8), 'C12': (1.5, 2), 'C13': (1, 1), 'C14': (1, 1), 'C15': (0.7, 1), 'C16': (15, 8),
+    'C17': (16, 10), 'C18': (1, 1), 'C19': (12, 8), 'C20': (20, 20),
 }
 
 FUZZ_CXX = 'clang++'
 FUZZ_FLAGS = ['-std=c++14', '-O1', '-g', '-fno-omit-frame-pointer', '-fsanitize=fuzzer-no-link,address,undefined', '-fno-sanitize-recover=undefined',
               '-D' + GUARD, '-DVF_FUZZ', '-w']
-FUZZ_RUNS = {'C01': 60000, 'C04': 250000, 'C08': 60000, 'C09': 30000, 'C10': 150000, 'C20': 40000}   # executions per worker (16 workers)
+# executions per worker (16 workers), calibrated with tools/fuzz_probe.py to roughly two minutes per campaign; every property has one
+# (D22, D23 and D27 were found by these campaigns, not by the random generators)
+FUZZ_RUNS = {'C01': 300000, 'C02': 2000000, 'C03': 100000, 'C04': 600000, 'C05': 40000, 'C06': 2000000, 'C07': 150000, 'C08': 250000, 'C09': 80000,
+             'C10': 200000, 'C11': 100000, 'C12': 1500, 'C13': 4000, 'C14': 800, 'C15': 8000, 'C16': 1500000, 'C17': 2000000, 'C18': 3000,
+             'C19': 80000, 'C20': 200000}
 
 def build_fuzz(b, pid, jobs=NCPU):
     """coverage-guided variant of a property binary: clang++ -fsanitize=fuzzer,address,undefined, same decoders and oracles"""
@@ -362,7 +366,8 @@ def check(pid, tier, repo, seed, scale, clauses, jobs, keep=False):
     # ---- regression tier: saved cases (shrunk reproducers of earlier findings and of seeded changes) replayed first, in milliseconds
     regress_fail = []
     regress_n = 0
-    for case in sorted(glob.glob(os.path.join(VERIF, 'regress', pid, '*.case'))):
+    # (VERIF_NO_REGRESS=1 leaves them out: the seeded-change matrix measures what generation alone finds)
+    for case in ([] if os.environ.get('VERIF_NO_REGRESS') == '1' else sorted(glob.glob(os.path.join(VERIF, 'regress', pid, '*.case')))):
         regress_n += 1
         rc0, _ = replay_once(binary, case, rundir)
         if rc0 == 1:
